@@ -164,8 +164,8 @@ Proof.
     + intros u. destruct (Z.eq_dec u t) as [->|Ne].
       * eapply (owner_keeps W s _ t (dn_cont k ow (kind_of_head l')) (T t)); rewrite ?Hpc; gcbn; rewrite ?upd_same;
           try reflexivity; try assumption.
-        apply Cont; gcbn; try reflexivity; try lia.
-        unfold pb. gcbn. fold (pb s). rewrite (pb_of W s r G). exact P0.
+        apply Cont; gcbn; try reflexivity; try lia; try exact Bm.
+        rewrite (pb_same s) by reflexivity. rewrite (pb_of W s r G). exact P0.
       * apply (other_thread_owner W s _ t u Ne T Ho); gcbn; try reflexivity.
         -- apply upd_other; exact Ne.
         -- rewrite Ho. intros X. congruence.
@@ -195,7 +195,7 @@ Proof.
            ++ intros _. rewrite Hpc in Wu. exact Wu.
            ++ intros X; discriminate.
            ++ intros _. gcbn. split; [exact Bm|]. split; [lia|]. split; [exact O|].
-              split; [unfold pb; gcbn; fold (pb s); rewrite (pb_of W s r G); exact P0|].
+              split; [rewrite (pb_same s) by reflexivity; rewrite (pb_of W s r G); exact P0|].
               destruct (kind_of_head_cases l') as [(K & E)|[(K & y & l2 & E & Eb)|(K & y & l2 & E & Eb)]]; rewrite K.
               ** split; [auto|]. split; intros X; discriminate X.
               ** split; [auto|]. split; [intros _; unfold head_nb; gcbn; rewrite E; exact Eb | intros X; discriminate X].
@@ -207,7 +207,7 @@ Proof.
            ++ exact T4.
            ++ intros X. contradiction.
            ++ intros _. gcbn. split; [exact Bm|]. split; [lia|]. split; [exact O|].
-              split; [unfold pb; gcbn; fold (pb s); rewrite (pb_of W s r G); exact P0|].
+              split; [rewrite (pb_same s) by reflexivity; rewrite (pb_of W s r G); exact P0|].
               destruct (kind_of_head_cases l') as [(K & E)|[(K & y & l2 & E & Eb)|(K & y & l2 & E & Eb)]]; rewrite K.
               ** split; [auto|]. split; intros X; discriminate X.
               ** split; [auto|]. split; [intros _; unfold head_nb; gcbn; rewrite E; exact Eb | intros X; discriminate X].
@@ -226,4 +226,140 @@ Proof.
            ++ apply upd_other; exact Nu'.
            ++ apply in_cons_other. exact Nu'.
            ++ rewrite Ho. intros X. congruence.
+Qed.
+
+(* the final rmw loop of _dispatch_lane_drain_non_barriers *)
+Lemma step_DN_fin W s t k ow nx s' : Inv W s -> valid_tid t -> pcs s t = DN_fin k ow nx -> gstep W s t = Some s' -> Inv W s'.
+Proof.
+  intros HI Vt Hpc Hs. unfold gstep in Hs. rewrite Hpc in Hs.
+  inv_pc HI t Hpc. destruct Hi as (Bm & Dw & O & P0 & Hnx & Hn1 & Hn2).
+  pose proof HI as (HW & (r & G) & T). pose proof (g_wf _ _ _ G) as Wf. pose proof Wf as Wf'. unfold wfr in Wf'.
+  pose proof (g_wt _ _ _ G) as Gwt. rewrite (pb_of W s r G) in P0.
+  pose proof (g_wq _ _ _ G) as Hwq. rewrite Dw, P0 in Hwq. pose proof (U_nonneg s) as Un.
+  pose proof (g_bound _ _ _ G) as Hbd. rewrite Dw in Hbd.
+  pose proof (g_ib _ _ _ G) as Hib. rewrite Bm in Hib. pose proof (g_hi _ _ _ G) as Hhi.
+  pose proof (g_enq _ _ _ G) as [Henq Hrq].
+  destruct (T t) as [T1 T2 T3 T4 T5 T6]. rewrite Hpc in *. cbn [holds owns toks waitpc] in *.
+  assert (Gto : grant s t <> GOwner) by (intros X; destruct (T5 X); discriminate).
+  assert (NK : tokh s <> Some t) by (intros X; apply T3 in X; discriminate).
+  rewrite (g_enc _ _ _ G) in Hs. unfold INTERVAL in Hs.
+  (* the word once the owned width has been given back (and, for a barrier next, the pending reservation made) *)
+  set (pbn := if nx =? 2 then 1 else 0) in *.
+  set (r0 := mk (f_owner r) (f_tr r) (f_enq r) (f_mq r) (f_ov r) (f_role r) (f_em r) (f_d r) pbn
+                (4096 - W + U s + (W - 1) * pbn) (f_ib r) (f_hi r)).
+  assert (W0 : wfr r0) by (subst r0 pbn; destruct (nx =? 2); wf_mk).
+  assert (E0 : u64 (enc r - (if nx =? 2 then f_dispatch_queue_adjust_owned 0 (ow * 2199023255552) 1 W 1 else ow * 2199023255552)) = enc r0).
+  { subst r0 pbn. destruct (Z.eqb_spec nx 2) as [E2|E2].
+    - rewrite sub_adjusted by (assumption || lia). f_equal. unfold mk. f_equal; lia.
+    - replace (enc r - ow * 2199023255552) with (enc r + (- ow) * 2199023255552) by lia.
+      rewrite add_wq by (assumption || lia). unfold set_wq. f_equal. unfold mk. f_equal; lia. }
+  rewrite (drain_nb_fields r r0) in Hs; try assumption; try lia;
+    try (subst r0; cbn [mk f_ib f_hi f_pb f_wq]; lia); try (unfold valid_tid in Vt; lia).
+  2:{ subst r0 pbn. cbn [mk f_pb f_wq]. destruct (nx =? 2); lia. }
+  cbv zeta in Hs. rewrite E0 in Hs.
+  set (r2 := mk 0 0 (f_enq r0) (f_mq r0) 0 (f_role r0) (f_em r0) 0 (f_pb r0) (f_wq r0) 0 0) in *.
+  assert (W2 : wfr r2) by (subst r2 r0 pbn; destruct (nx =? 2); wf_mk).
+  (* releasing the lock *)
+  assert (Rel : forall r3 tk p2,
+            wfr r3 -> f_owner r3 = 0 -> f_tr r3 = 0 -> f_ov r3 = 0 -> f_role r3 = f_role r -> f_em r3 = f_em r -> f_pb r3 = pbn ->
+            f_wq r3 = 4096 - W + U s + (W - 1) * pbn -> f_ib r3 = 0 -> f_hi r3 = 0 -> (pbn = 1 -> 1 <= U s) ->
+            holds p2 = false -> owns p2 = false -> waitpc p2 = ret_waits k ->
+            ((tk = Some t /\ toks p2 = true /\ f_enq r3 = 1 /\ f_enq r = 0) \/ (tk = tokh s /\ toks p2 = false /\ f_enq r3 = f_enq r)) ->
+            Inv W (set_pc (set_tokh (set_dw (set_lockh (set_st s (enc r3)) None) 0) tk) t p2)).
+  { intros r3 tk p2 W3 R1 R2 R3 R4 R5 R6 R7 R8 R9 RU Ph Po Pw Tk.
+    split; [exact HW|]. split.
+    - exists r3. pose proof (g_pbh _ _ _ G) as Gph. destruct G.
+      constructor; unfold U in *; gcbn; try assumption; try lia; try reflexivity; try congruence.
+      + intros X. discriminate X.
+      + rewrite Bm. reflexivity.
+      + rewrite Bm. discriminate.
+      + rewrite R7, R6. lia.
+      + split; [lia|]. auto.
+      + intros _ X. apply RU. lia.
+      + split; [|exact Hrq]. destruct Tk as [(-> & _ & E1 & E2)|(-> & _ & E1)].
+        * rewrite E1. rewrite E2 in Henq. destruct (tokh s); lia.
+        * rewrite E1. exact Henq.
+      + apply g_wt_setpc; [exact Gwt | rewrite Hpc, Pw; cbn [waitpc]; auto].
+      + intros X. apply Hn2. subst pbn. destruct (Z.eqb_spec nx 2); [assumption|lia].
+    - intros u. destruct (Z.eq_dec u t) as [->|Ne].
+      + constructor; gcbn; rewrite ?upd_same, ?Ph, ?Po, ?Pw.
+        * exact T1.
+        * split; [discriminate | intros [X|X]; [discriminate|contradiction]].
+        * destruct Tk as [(-> & Kp & _)|(-> & Kp & _)]; rewrite Kp; [split; auto | split; [intros X; contradiction|discriminate]].
+        * exact T4.
+        * intros X. contradiction.
+        * discriminate.
+      + apply (other_thread_owner W s _ t u Ne T Ho); gcbn; try reflexivity.
+        * apply upd_other; exact Ne.
+        * discriminate.
+        * destruct Tk as [(-> & _ & _ & E2)|(-> & _)]; [|reflexivity].
+          rewrite E2 in Henq. assert (TN : tokh s = None) by (destruct (tokh s); [lia|reflexivity]).
+          rewrite TN. split; [intros X; congruence|discriminate]. }
+  assert (R0f : f_ib r0 = 0 /\ f_hi r0 = 0 /\ f_pb r0 = pbn /\ f_wq r0 = 4096 - W + U s + (W - 1) * pbn /\ f_enq r0 = f_enq r /\
+                f_role r0 = f_role r /\ f_em r0 = f_em r) by (subst r0; cbn [mk f_ib f_hi f_pb f_wq f_enq f_role f_em]; auto).
+  destruct R0f as (F1 & F2 & F3 & F4 & F5 & F6 & F7).
+  assert (Pbn : pbn = 0 \/ pbn = 1) by (subst pbn; destruct (nx =? 2); auto).
+  destruct (Z.eqb_spec nx 0) as [N0|N0].
+  - (* nothing more to hand out *)
+    change (nz 0) with false in Hs. cbv iota in Hs.
+    destruct (Z.eqb_spec (f_d r) 1) as [Hd|Hd].
+    { injection Hs as <-. pc_only_tac HI Hpc. auto. }
+    assert (Pn0 : pbn = 0) by (subst pbn; destruct (Z.eqb_spec nx 2); [lia|reflexivity]).
+    unfold changed, IN_BARRIER, ENQUEUED in Hs. rewrite changed_ib_f, changed_enq_f in Hs by assumption.
+    subst r2. fcbn_in Hs. rewrite F1, Z.eqb_refl in Hs. cbn [Z.eqb negb] in Hs. injection Hs as <-.
+    specialize (Rel (mk 0 0 (f_enq r0) (f_mq r0) 0 (f_role r0) (f_em r0) 0 (f_pb r0) (f_wq r0) 0 0) (tokh s) (after k)).
+    replace (set_tokh (set_dw (set_lockh (set_st s (enc (mk 0 0 (f_enq r0) (f_mq r0) 0 (f_role r0) (f_em r0) 0 (f_pb r0) (f_wq r0) 0 0))) None) 0) (tokh s))
+      with (set_dw (set_lockh (set_st s (enc (mk 0 0 (f_enq r0) (f_mq r0) 0 (f_role r0) (f_em r0) 0 (f_pb r0) (f_wq r0) 0 0))) None) 0) in Rel by reflexivity.
+    apply Rel; fcbn; try assumption; try reflexivity; try lia; try (destruct k; reflexivity).
+    right. split; [reflexivity|]. split; [destruct k; reflexivity | exact F5].
+  - (* there is a next item: DIRTY stays behind, and the lock may be taken again on its behalf *)
+    assert (Nz : nz (if nx =? 0 then 0 else 1) = true) by (destruct (Z.eqb_spec nx 0); [contradiction|reflexivity]).
+    rewrite Nz in Hs.
+    unfold tl_rec, tl_take in Hs. subst r2. fcbn_in Hs. rewrite F3, F4 in Hs.
+    assert (Take : (if pbn =? 1 then 4096 - W + U s + (W - 1) * pbn + 1 =? 4096 else 4096 - W + U s + (W - 1) * pbn + W =? 4096)
+                   = (U s =? 0)).
+    { destruct Pbn as [->| ->]; cbn [Z.eqb].
+      - destruct (Z.eqb_spec (4096 - W + U s + (W - 1) * 0 + W) 4096); destruct (Z.eqb_spec (U s) 0); try reflexivity; lia.
+      - destruct (Z.eqb_spec (4096 - W + U s + (W - 1) * 1 + 1) 4096); destruct (Z.eqb_spec (U s) 0); try reflexivity; lia. }
+    rewrite Take in Hs.
+    destruct (Z.eqb_spec (U s) 0) as [U0|U0].
+    + (* every handed-out interval is back already: barrier owner again *)
+      set (rl := locked_bar (mk 0 0 (f_enq r0) (f_mq r0) 0 (f_role r0) (f_em r0) 1 pbn (4096 - W + U s + (W - 1) * pbn) 0 0) t) in *.
+      assert (Wl : wfr rl) by (subst rl; unfold locked_bar; fcbn; unfold valid_tid in Vt; destruct Pbn as [->| ->]; wf_mk).
+      unfold changed, IN_BARRIER in Hs. rewrite changed_ib_f in Hs by assumption.
+      subst rl. fcbn_in Hs. rewrite F1 in Hs. cbn [Z.eqb negb] in Hs. injection Hs as <-.
+      split; [exact HW|]. split.
+      * eexists. destruct G. constructor; try reflexivity; try exact Wl; unfold U in *; gcbn; fcbn; try assumption; try lia; try congruence.
+        -- intros _. split; [rewrite Ho; discriminate|]. split; [reflexivity|]. split; [lia|reflexivity].
+        -- split; [lia|]. intros X. rewrite Ho in X. discriminate X.
+        -- intros X. rewrite Ho in X. discriminate X.
+        -- rewrite F5. exact (conj Henq Hrq).
+        -- apply g_wt_setpc; [exact Gwt | rewrite Hpc; cbn [waitpc]; auto].
+        -- intros X. discriminate X.
+      * intros u. destruct (Z.eq_dec u t) as [->|Ne].
+        -- eapply (owner_keeps W s _ t (BC_tail k) (T t)); rewrite ?Hpc; gcbn; rewrite ?upd_same; try reflexivity.
+        -- apply (other_thread_owner W s _ t u Ne T Ho); gcbn; try reflexivity.
+           ++ apply upd_other; exact Ne.
+           ++ rewrite Ho. intros X. congruence.
+    + assert (U1 : 1 <= U s) by lia.
+      destruct (Z.eqb_spec (f_d r) 1) as [Hd|Hd].
+      * (* DIRTY was set meanwhile: the lane must be re-enqueued *)
+        set (r3 := set_enq1 (mk 0 0 (f_enq r0) (f_mq r0) 0 (f_role r0) (f_em r0) 1 pbn (4096 - W + U s + (W - 1) * pbn) 0 0)) in *.
+        assert (W3 : wfr r3) by (subst r3; unfold set_enq1; fcbn; destruct Pbn as [->| ->]; wf_mk).
+        unfold changed, IN_BARRIER, ENQUEUED in Hs. rewrite changed_ib_f, changed_enq_f in Hs by assumption.
+        subst r3. fcbn_in Hs. rewrite F1, F5 in Hs. cbn [Z.eqb negb] in Hs.
+        destruct (Z.eqb_spec (f_enq r) 1) as [He|He]; cbn [negb] in Hs; injection Hs as <-.
+        -- match goal with |- Inv W (set_pc ?s1 t ?p) =>
+             replace s1 with (set_tokh s1 (tokh s)) by reflexivity end.
+           apply Rel; unfold set_enq1; fcbn; try assumption; try reflexivity; try lia; try (destruct k; reflexivity).
+           right. split; [reflexivity|]. split; [destruct k; reflexivity | lia].
+        -- apply Rel; unfold set_enq1; fcbn; try assumption; try reflexivity; try lia; try (destruct k; reflexivity).
+           left. repeat split; auto; lia.
+      * unfold changed, IN_BARRIER, ENQUEUED in Hs. rewrite changed_ib_f, changed_enq_f in Hs by (assumption || (destruct Pbn as [->| ->]; wf_mk)).
+        fcbn_in Hs. rewrite F1, Z.eqb_refl in Hs. cbn [Z.eqb negb] in Hs. injection Hs as <-.
+        match goal with |- Inv W (set_pc ?s1 t ?p) =>
+          replace s1 with (set_tokh s1 (tokh s)) by reflexivity end.
+        apply Rel; fcbn; try assumption; try reflexivity; try lia; try (destruct k; reflexivity);
+          try (destruct Pbn as [->| ->]; wf_mk).
+        right. split; [reflexivity|]. split; [destruct k; reflexivity | exact F5].
 Qed.
